@@ -112,6 +112,7 @@ class Adam(Optimizer):
         
         self.m1 = [0 for _ in range(len(parameters))]
         self.m2 = [0 for _ in range(len(parameters))]
+        self.steps = [0 for _ in range(len(parameters))]
     
     def step(self):
         super().step()
@@ -130,8 +131,10 @@ class Adam(Optimizer):
                 # Update biased second raw moment estimate
                 self.m2[i] = self.beta2 * self.m2[i] + (1.0 - self.beta2) * grad**2.0
                 
-                m1_corrected = self.m1[i] / (1.0 - self.beta1**self.t)
-                m2_corrected = self.m2[i] / (1.0 - self.beta2**self.t)
+                # Bias correction uses the number of updates this parameter has received
+                self.steps[i] += 1
+                m1_corrected = self.m1[i] / (1.0 - self.beta1**self.steps[i])
+                m2_corrected = self.m2[i] / (1.0 - self.beta2**self.steps[i])
 
                 # Update the parameters using the Adam formula
                 p.data -= (self.lr * m1_corrected) / (np.sqrt(m2_corrected) + self.epsilon)
@@ -166,6 +169,7 @@ class AdamW(Optimizer):
         
         self.m1 = [0 for _ in range(len(parameters))]
         self.m2 = [0 for _ in range(len(parameters))]
+        self.steps = [0 for _ in range(len(parameters))]
         
     def step(self):
         super().step()
@@ -183,8 +187,10 @@ class AdamW(Optimizer):
                 # Update biased second raw moment estimate
                 self.m2[i] = self.beta2 * self.m2[i] + (1.0 - self.beta2) * grad**2.0
                 
-                m1_corrected = self.m1[i] / (1.0 - self.beta1**self.t)
-                m2_corrected = self.m2[i] / (1.0 - self.beta2**self.t)
+                # Bias correction uses the number of updates this parameter has received
+                self.steps[i] += 1
+                m1_corrected = self.m1[i] / (1.0 - self.beta1**self.steps[i])
+                m2_corrected = self.m2[i] / (1.0 - self.beta2**self.steps[i])
 
                 # Update the parameters using the Adam formula
                 p.data -= (self.lr * m1_corrected) / (np.sqrt(m2_corrected) + self.epsilon)
